@@ -129,3 +129,85 @@ def tt2_target(uid=b"\x01\x02\x03\x04\x05\x06\x07"):
     t.sel_res = bytearray(b"\x00")
     t.sdd_res = bytearray(uid)
     return t
+
+
+# ----------------------------------------------------------------------------
+# Type 1 Tag
+# ----------------------------------------------------------------------------
+class Tt1Sim(SimBase):
+    """Topaz-style tag: HR0/HR1, 120 bytes static memory (HR0 low nibble 1) or
+    more (dynamic, 8-byte block commands).  WRITE-E erases then writes,
+    WRITE-NE ORs.  Reads beyond the physical memory return zeros and writes
+    there are ignored (the tag still answers).  Commands with another UID or
+    unsupported commands get no answer.  Lock/OTP bytes are plain memory."""
+
+    def __init__(self, mem, hr0, hr1):
+        SimBase.__init__(self)
+        self.mem = mem
+        self.hr = [hr0, hr1]
+        self.dynamic = (hr0 & 0x0F) != 1
+
+    def uid(self):
+        return self.mem[0:4]
+
+    def is_write(self, cmd):
+        return cmd[0] in (0x53, 0x1A, 0x54, 0x1B)
+
+    def _uid_ok(self, cmd):
+        return list(cmd[-4:]) == list(self.mem[0:4])
+
+    def _store(self, addr, new, erase):
+        if addr + len(new) > len(self.mem):
+            return [0] * len(new)
+        old = self.mem[addr:addr + len(new)]
+        if not erase:
+            new = [o | n for o, n in zip(old, new)]
+        self.writes.append((addr, old, list(new)))
+        self.mem[addr:addr + len(new)] = list(new)
+        return list(new)
+
+    def execute(self, cmd):
+        op = cmd[0]
+        if op == 0x78 and len(cmd) == 7:
+            self.log.append(("rid", 0))
+            return bytearray(self.hr + self.mem[0:4])
+        if len(cmd) >= 7 and not self._uid_ok(cmd):
+            raise nfc.clf.TimeoutError("other uid")
+        if op == 0x00 and len(cmd) == 7:
+            self.log.append(("rall", 0))
+            return bytearray(self.hr + self.mem[0:120])
+        if op == 0x01 and len(cmd) == 7:
+            addr = cmd[1] & 0x7F
+            self.log.append(("read", addr))
+            v = self.mem[addr] if addr < len(self.mem) else 0
+            return bytearray([addr, v])
+        if op in (0x53, 0x1A) and len(cmd) == 7:
+            addr = cmd[1] & 0x7F
+            self.log.append(("write", addr))
+            new = self._store(addr, [cmd[2]], op == 0x53)
+            return bytearray([addr] + new)
+        if self.dynamic and op == 0x10 and len(cmd) == 14:
+            seg = cmd[1] >> 4
+            self.log.append(("rseg", seg))
+            d = [self.mem[seg * 128 + i] if seg * 128 + i < len(self.mem) else 0
+                 for i in range(128)]
+            return bytearray([cmd[1]] + d)
+        if self.dynamic and op == 0x02 and len(cmd) == 14:
+            blk = cmd[1]
+            self.log.append(("read8", blk))
+            d = [self.mem[blk * 8 + i] if blk * 8 + i < len(self.mem) else 0
+                 for i in range(8)]
+            return bytearray([blk] + d)
+        if self.dynamic and op in (0x54, 0x1B) and len(cmd) == 14:
+            blk = cmd[1]
+            self.log.append(("write8", blk))
+            new = self._store(blk * 8, [cmd[2 + i] for i in range(8)], op == 0x54)
+            return bytearray([blk] + new)
+        raise nfc.clf.TimeoutError("unsupported command")
+
+
+def tt1_target(sim):
+    t = nfc.clf.RemoteTarget("106A")
+    t.sens_res = bytearray(b"\x00\x0C")
+    t.rid_res = bytearray(sim.hr + sim.mem[0:4])
+    return t
